@@ -1447,7 +1447,7 @@ func TestC11Fill(t *testing.T) {
 		tr.Count("corpus:fill-clipped")
 	}
 	// ---- corpus 5: emergency shutdown, vault-initiated auction past its window: TriggerEsm forwards the 100 000 b1 paid, and then
-	// forwards 100 000 again every block — out of b4's limit deposit, which b4 can then no longer cancel (D35)
+	// forwards 100 000 again every block — out of b4's limit deposit, which b4 can then no longer cancel (D39)
 	if s := c11fillStart(t, f, tr, base, "0", "0"); s != nil {
 		s.fbid("b1", sdk.NewInt(100000))
 		s.fdep("b4", 30, sdk.NewInt(250000))
